@@ -56,6 +56,12 @@ Theorem C12_G_grad : forall pre post x ys,
   is_derive (fun t => GF_cell (pre ++ t :: post) ys) x (GF_grad xs ys x).
 Proof. exact G_grad. Qed.
 
-(* C12_grad_partial: for the log-normal, KDE and mixture filters the gradient formulas of the model
-   (LNF_grad, KDE_grad_z, GMIX_grad) are tied to chi by the certified correspondence and checked against
-   finite differences by the search oracle, but their is_derive theorems are not proved yet. *)
+Theorem C12_LN_grad : forall pre post x ys,
+  let xs := pre ++ x :: post in
+  0 < x -> 1 < nR xs -> 0 < var (map ln xs) ->
+  is_derive (fun t => LNF_cell (pre ++ t :: post) ys) x (LNF_grad xs ys x).
+Proof. exact LN_grad. Qed.
+
+(* C12_grad_partial: for the KDE and mixture filters the gradient formulas of the model (KDE_grad_z, GMIX_grad) are
+   tied to chi by the certified correspondence and checked against finite differences by the search oracle, but
+   their is_derive theorems are not proved. *)
